@@ -74,6 +74,26 @@ fn cases(tier: Tier) -> Vec<(char, Vec<u8>, String)> {
         }
         Err(e) => v.push(('D', vec![], format!("MODEL: history world unavailable: {e}"))),
     }
+    // the same for the compressor: every history of <= 2/3 inputs through one FrameCompressor (Fastest)
+    {
+        const B: usize = 128 * 1024;
+        let ins: Vec<(String, Vec<u8>)> = vec![("empty".into(), vec![]), ("one byte".into(), b"x".to_vec()), ("text 3000".into(), crate::cmp::text_like(3000, 1)), ("skewed block".into(), crate::cmp::skewed(B, 60, 9)), ("skewed block + 7000".into(), crate::cmp::skewed(B + 7000, 60, 10)), ("incompressible two blocks".into(), crate::cmp::unique(2 * B, 3)), ("constant block + 1".into(), vec![7; B + 1]), ("period 23".into(), (0..50_000).map(|i| (i % 23) as u8).collect())];
+        for (name, d) in &ins {
+            v.push(('I', d.clone(), format!("define input: {name}")));
+        }
+        let n = ins.len();
+        for len in 1..=tier.pick(2u32, 3) {
+            for mut k in 0..n.pow(len) {
+                let mut seq = vec![];
+                for _ in 0..len {
+                    seq.push((k % n) as u8);
+                    k /= n;
+                }
+                let name = format!("inputs through one compressor: {:?}", seq.iter().map(|i| ins[*i as usize].0.as_str()).collect::<Vec<_>>());
+                v.push(('R', seq, name));
+            }
+        }
+    }
     v
 }
 
@@ -174,7 +194,7 @@ pub fn main(tier: Tier, replay: Option<Value>) -> i32 {
     for (i, c) in cs.iter().enumerate() {
         let lines: Vec<&str> = outputs.iter().map(|o| o[i + 2].splitn(3, ' ').nth(2).unwrap_or("")).collect();
         run.add("evaluations", 4);
-        if c.0 != 'C' {
+        if c.0 != 'C' && c.0 != 'R' {
             // all four decoders agree (bytes and error class; for histories: the outcome of every frame)
             if lines.iter().any(|l| *l != lines[0]) {
                 run.violation(Violation { identity: format!("decoder_differs:{}", if lines[0] == lines[1] && lines[2] == lines[3] { "std_vs_nostd" } else { "hash_vs_nohash" }), what: format!("[{}] decoder outcome differs between builds: std+hash [{}], std [{}], hash [{}], none [{}]", c.2, lines[0], lines[1], lines[2], lines[3]), replay: json!({"case": c.2, "frame": crate::ev::show(&c.1)}) });
@@ -190,7 +210,7 @@ pub fn main(tier: Tier, replay: Option<Value>) -> i32 {
             let raw_std_nostd = p[0].iter().map(|y| &y.0).collect::<Vec<_>>() == p[2].iter().map(|y| &y.0).collect::<Vec<_>>() && p[1].iter().map(|y| &y.0).collect::<Vec<_>>() == p[3].iter().map(|y| &y.0).collect::<Vec<_>>();
             if bad_marker || !norm_equal || !raw_std_nostd {
                 run.violation(Violation { identity: format!("compressor_differs:{}", if bad_marker { "flag_or_panic" } else if !raw_std_nostd { "std_vs_nostd" } else { "hash_changes_more_than_flag_and_trailer" }), what: format!("[{}] compressor output differs between builds beyond the checksum flag and trailer: std+hash [{}], std [{}], hash [{}], none [{}]", c.2, lines[0], lines[1], lines[2], lines[3]), replay: json!({"case": c.2, "input": crate::ev::show(&c.1)}) });
-            } else if c.1.len() >= 5 {
+            } else if c.1.len() >= 5 || c.0 == 'R' {
                 nontrivial += 1;
             }
         }
